@@ -24,12 +24,14 @@ EXC = {
     'KeyError': lambda: KeyError('boom'),
     'Private': lambda: Private('boom'),
     'castError': lambda: CastError('bad cast', errors=[CastError('inner')]),
+    'castErrorBare': lambda: CastError('bad cast'),          # no nested errors (what Field.cast_value raises)
+    'castErrorMany': lambda: CastError('bad casts', errors=[CastError('i1'), CastError('i2')]),
     'uniqueKeyError': lambda: UniqueKeyError('dup'),
     'validationError': lambda: ValidationError('r', {'a': 1}, 0, None),
     'AssertionError': lambda: AssertionError('boom'),
     'RuntimeError': lambda: RuntimeError('boom'),
 }
-MODEL_CLS = {'castError': 'castError', 'uniqueKeyError': 'uniqueKeyError', 'validationError': 'validationError'}
+MODEL_CLS = {'castError': 'castError', 'castErrorBare': 'castError', 'castErrorMany': 'castError', 'uniqueKeyError': 'uniqueKeyError', 'validationError': 'validationError'}
 
 
 def make_fault(kind, exc, at):
@@ -202,7 +204,8 @@ def builtin_poison_case(ctx, rng, idx):
     rep = ctx.report
     n = rng.choice([3, 8, 150])
     at = rng.choice([0, n // 2, n - 1])
-    kind = rng.choice(['set_type', 'filter-missing-key', 'computed-typeerror', 'concat-empty-row', 'load-cast', 'dedup-missing'])
+    kind = rng.choice(['set_type', 'filter-missing-key', 'computed-typeerror', 'concat-empty-row', 'load-cast', 'load-cast',
+                       'load-surplus-cell', 'dedup-missing'])
     data = [{'a': str(i), 'b': i} for i in range(n)]
     base = os.path.join(ctx.scratch, 'p%d' % idx)
     if kind == 'set_type':
@@ -232,7 +235,11 @@ def builtin_poison_case(ctx, rng, idx):
         # a data package on disk whose data does not match its schema: the cast error of the schema library
         os.makedirs(base, exist_ok=True)
         with open(os.path.join(base, 'd.csv'), 'w') as f:
-            f.write('a,b\n' + ''.join('%s,%d\n' % ('zz' if i == at else str(i), i) for i in range(n)))
+            if kind == 'load-surplus-cell':
+                # a structural problem: tableschema raises a CastError without nested errors
+                f.write('a,b\n' + ''.join('%d,%d%s\n' % (i, i, ',9' if i == at else '') for i in range(n)))
+            else:
+                f.write('a,b\n' + ''.join('%s,%d\n' % ('zz' if i == at else str(i), i) for i in range(n)))
         with open(os.path.join(base, 'datapackage.json'), 'w') as f:
             json.dump({'name': 'p', 'resources': [{'name': 'd', 'path': 'd.csv', 'schema': {'fields': [
                 {'name': 'a', 'type': 'integer'}, {'name': 'b', 'type': 'integer'}]}}]}, f)
